@@ -313,7 +313,9 @@ SCENARIOS = [
     Scenario('operator_failures', run_ops, strategy=strat_ops, budget={'quick': 2500, 'thorough': 30000},
              shards={'quick': 10, 'thorough': 16}, nondeterministic=True),
     Scenario('batching_options', run_batching, strategy=strat_batching, budget={'quick': 1500, 'thorough': 20000},
-             shards={'quick': 3, 'thorough': 16}),
+             shards={'quick': 3, 'thorough': 16},
+             fuzz_runs={'thorough': 40000}, instrument=('ml_metrics._src.chainables.transform', 'ml_metrics._src.chainables.tree_fns', 'ml_metrics._src.chainables.tree', 'ml_metrics._src.utils.iter_utils')),
     Scenario('data_source_failures', run_source, strategy=strat_source, budget={'quick': 1500, 'thorough': 20000},
-             shards={'quick': 3, 'thorough': 16}),
+             shards={'quick': 3, 'thorough': 16},
+             fuzz_runs={'thorough': 40000}, instrument=('ml_metrics._src.chainables.transform', 'ml_metrics._src.chainables.tree_fns', 'ml_metrics._src.chainables.tree', 'ml_metrics._src.utils.iter_utils')),
 ]
